@@ -46,8 +46,9 @@ def determinism(props, seed, scale=1.0):
         for prop in props:
             mod = importlib.import_module("votesim.props." + prop.lower())
             n = max(16, int(SAMPLE[prop] * scale))
-            saved_runs, saved_hs = dict(mod.RUNS), dict(getattr(mod, "HASHSEEDS", {}))
+            saved_runs, saved_hs, saved_time = dict(mod.RUNS), dict(getattr(mod, "HASHSEEDS", {})), dict(mod.TIME)
             mod.RUNS = dict(mod.RUNS, quick=n)
+            mod.TIME = dict(mod.TIME, quick=4 * mod.TIME["quick"])  # every configuration should reach every run, also on a loaded machine
             configs = [("w4-h0", 4, [0]), ("w16-h0", 16, [0]), ("w3-h0-reversed", 3, [0])]
             if prop in HASH_INDEPENDENT:
                 configs.append(("w8-h1+h31337", 8, [1, 31337]))
@@ -69,11 +70,14 @@ def determinism(props, seed, scale=1.0):
                 for i, per in d.items():
                     for h, dg in per.items():
                         digs.setdefault(i, {})[f"{name}:{h}"] = dg
-            mod.RUNS, mod.HASHSEEDS = saved_runs, saved_hs
-            diverged = [i for i, per in digs.items() if len(set(per.values())) > 1 or len(per) < sum(len(c[2]) for c in configs)]
+            mod.RUNS, mod.HASHSEEDS, mod.TIME = saved_runs, saved_hs, saved_time
+            # a run whose executions disagree is a divergence; a run that some configuration did not reach before its
+            # wall-clock budget (a loaded machine) is merely incomplete: reported, but not a determinism problem
+            diverged = [i for i, per in digs.items() if len(set(per.values())) > 1]
+            incomplete = [i for i, per in digs.items() if len(per) < sum(len(c[2]) for c in configs)]
             report[prop] = {"runs": len(digs), "executions_per_run": sum(len(c[2]) for c in configs), "configs": [c[0] for c in configs],
-                            "diverged": len(diverged), "examples": {i: digs[i] for i in diverged[:3]}, "wall_s": round(time.monotonic() - t0, 1)}
-            print(f"selftest determinism {prop}: {len(digs)} runs x {report[prop]['executions_per_run']} executions, diverged={len(diverged)} ({report[prop]['wall_s']}s)")
+                            "diverged": len(diverged), "incomplete_runs": len(incomplete), "examples": {i: digs[i] for i in diverged[:3]}, "wall_s": round(time.monotonic() - t0, 1)}
+            print(f"selftest determinism {prop}: {len(digs)} runs x {report[prop]['executions_per_run']} executions, diverged={len(diverged)} incomplete={len(incomplete)} ({report[prop]['wall_s']}s)")
             bad += len(diverged)
     finally:
         shutil.rmtree(out, ignore_errors=True)
